@@ -4,7 +4,7 @@
  * stolen while parked (the sequentially consistent, point-granular controller cannot exhibit those).
  *
  * usage: sync_stress_prog KIND W N ROUNDS PSEED NOISE
- *   KIND  mutex | cond | cond2 (notify after unlock) | jc | uncond | once | felock
+ *   KIND  mutex | cond | cond2 (notify after unlock) | jc | uncond | once | felock | yieldfair
  *   W workers, N participants (meaning per kind), ROUNDS iterations, NOISE bystander threads that only yield.
  * output: RESULT ok | RESULT fail <detail>      (a hang is the caller's timeout)
  */
@@ -195,6 +195,18 @@ static void * fe_cons(void * a) {
   return 0;
 }
 
+/* ---------------- yield: a yielding thread goes behind the other runnable threads of its worker ---------------- */
+static volatile int yf_flag; static volatile long yf_yields; static int yf_setter_yields;
+static void * yf_setter(void * a) { (void)a; for (int i = 0; i < yf_setter_yields; i++) myth_yield(); yf_flag = 1; return 0; }
+static void * yf_waiter(void * a) {
+  (void)a;
+  while (!yf_flag) {
+    if (__sync_add_and_fetch(&yf_yields, 1) > 2000000L) { FAIL("yield: the pollers yielded 2000000 times and a runnable thread of the same worker was never resumed (it only had to yield %d times and set a flag)", yf_setter_yields); break; }
+    myth_yield();
+  }
+  return 0;
+}
+
 int main(int argc, char ** argv) {
   const char * kind = argc > 1 ? argv[1] : "mutex";
   int W = argc > 2 ? atoi(argv[2]) : 4;
@@ -236,6 +248,14 @@ int main(int argc, char ** argv) {
   } else if (!strcmp(kind, "once")) {
     for (long i = 0; i < N; i++) th[n++] = myth_create(once_body, (void *)i);
     for (int i = 0; i < n; i++) myth_join(th[i], 0);
+  } else if (!strcmp(kind, "yieldfair")) {
+    /* ROUNDS = how often the setter yields before it sets the flag; N pollers; repeated a few times */
+    for (int rep = 0; rep < 20 && !bad; rep++) {
+      yf_flag = 0; yf_yields = 0; yf_setter_yields = 1 + (ROUNDS + rep) % 7; n = 0;
+      th[n++] = myth_create(yf_setter, 0);
+      for (long i = 0; i < N; i++) th[n++] = myth_create(yf_waiter, 0);
+      for (int i = 0; i < n; i++) myth_join(th[i], 0);
+    }
   } else if (!strcmp(kind, "felock")) {
     myth_felock_init(&fe, 0);
     int P = (N + 1) / 2, C = N - P; if (C < 1) C = 1;
